@@ -118,7 +118,7 @@ def main():
     def p_out(e): e[3]['out'][40] ^= 1; return 4
     def p_stat(e): e[1]['res'] = 0; return 2
     def p_ent(e): e[3]['ent'] = []; return 4                 # a hook removed: the automatic reseed is not logged
-    def p_at(e): e[3]['ent'][0]['at'] = 0; return 4
+    def p_at(e): e[3]['ent'][0]['at'] = 64; return 4           # (0 would mean 'position not observable' and is accepted)
     def p_short(e): e[3]['ent'][0]['bytes'][0] ^= 1; return 4
     corrupt_suite(wd, 'TV_Prng', ev, [("output byte flipped", p_out), ("seeded status flipped", p_stat), ("entropy request not logged", p_ent),
                                       ("request position moved", p_at), ("delivered entropy byte altered", p_short)])
@@ -128,6 +128,11 @@ def main():
     def o_clean(e): e[1]['nonzero'] = 1; return 2
     def o_taint(e): e[3]['taint'] = 1; return 4
     corrupt_suite(wd, 'TV_Obs', ev, [("clean leaves a byte", o_clean), ("taint report", o_taint)])
+    ev2, _ = run_driver(exe, ["reset id=r", "deadstate id=d kind=hash m=0102030405", "deadstate id=d2 kind=hkdf key=0102 salt=03 info=04 len=40"])
+
+    def o_dead(e): e[1]['maxrun'] = 56; return 2
+    def o_vac(e): e[2]['windows'] = 0; return 3
+    corrupt_suite(wd, 'TV_Obs', ev2, [("state object found in the dead stack", o_dead), ("vacuous dead-stack search", o_vac)])
 
     def x_perm(e): e[2]['out'][15] ^= 0x40; return 2
     corrupt_suite(wd, 'TV_Perm', [ev[0], ev[2]], [("permutation output bit flipped", lambda e: (e[1]['out'].__setitem__(15, e[1]['out'][15] ^ 0x40), 2)[1])])
@@ -156,6 +161,13 @@ def main():
                   [('ELSE [s EXCEPT !.pc = IF s.variant = "dev" THEN "close" ELSE "done", !.res = 0, !.buf = "zero"]   \\* PERM',
                     'ELSE [s EXCEPT !.pc = IF s.variant = "dev" THEN "close" ELSE "done", !.res = 0]   \\* PERM')],
                   r'FailureZeroes is violated', "TJTrng that does not zero the buffer on a permanent error", editfile='TJTrng')
+    model_variant(wd, 'MC_TrngHw', 'MC_TrngHw',
+                  [("!.okf = s.okf /\\ fromdev]", "!.okf = s.okf]")],
+                  r'Contract is violated', "TJTrngHw whose Due driver reports success although a word was never ready", editfile='TJTrngHw')
+    model_variant(wd, 'MC_TrngHw', 'MC_TrngHw',
+                  [('ELSE Tick([s EXCEPT !.pc = "rel", !.okf = FALSE, !.out = Zeros(4 * Words)])',
+                    'ELSE Tick([s EXCEPT !.pc = "ret", !.okf = FALSE, !.out = Zeros(4 * Words)])')],
+                  r'Contract is violated|NeverBad|eadlock', "TJTrngHw whose Windows driver skips the release after a failed generate", editfile='TJTrngHw')
     print()
     if FAILS:
         print(f"SELFTEST FAILED: {len(FAILS)} expectation(s)")
